@@ -79,7 +79,7 @@ func c12bGen(r *kit.Rand, i int) c12Beta {
 		t := r.LogUniform(-8, 3)
 		x = v / (v + t*t)
 	case 1: // near the switch point (a+1)/(a+b+2) of the two continued fractions
-		x = (v/2 + 1) / (v/2 + 2.5) * (1 + 1e-3*r.NormFloat64())
+		x = 1 - 1.5/(v/2+2.5)*math.Abs(1+0.3*r.NormFloat64()) // 1 - switch = (b+1)/(a+b+2)
 	case 2:
 		x = (0.5 + 1) / (v/2 + 2.5) * (1 + 1e-3*r.NormFloat64())
 	case 3: // around the bulk of the Beta(V/2,1/2) mass: 1 - x ~ 1/V
